@@ -31,7 +31,7 @@ class ResWorld(World):
     name = "W-res"
 
     def __init__(self, variant: str = "full", low_energy: bool = True, pairs: bool = True, prices: bool = False,
-                 mechs=("quiet", "small", "quiet"), idle_timeout: int = 120, gas: bool = False, name: str = "", atomic_pairs: bool = False, v0_energy=None):
+                 mechs=("quiet", "small", "quiet"), idle_timeout: int = 120, gas: bool = False, name: str = "", atomic_pairs: bool = False, v0_energy=None, split_base: bool = False):
         super().__init__()
         self.pairs = pairs
         if name:
@@ -47,7 +47,8 @@ class ResWorld(World):
         s1 = mk_station(env, rn, "s1", S["F1"], {"DCFC": 1})
         bs = mk_station(env, rn, "bs", S["X1"], {"LEVEL_2": 1})
         b0 = mk_base(rn, "b0", S["X1"], stalls=1, station_id="bs")
-        b1 = mk_base(rn, "b1", S["M1"], stalls=1, station_id=None)
+        # split_base: base b1 (on M1) is served by station s0, which stands on another cell (N1) -- the input files allow it
+        b1 = mk_base(rn, "b1", S["M1"], stalls=1, station_id="s0" if split_base else None)
         v0 = mk_vehicle(env, rn, "v0", S["A"], mechs[0], soc=0.5, energy=0.10 if (low_energy and mechs[0] != "ice") else None)
         if v0_energy is not None:
             v0 = mk_vehicle(env, rn, "v0", S["A"], mechs[0], energy=v0_energy)
@@ -88,6 +89,8 @@ class ResWorld(World):
         ]
         if gas:
             per_vehicle += [("DispatchStation", "s0", "GAS_PUMP"), ("ChargeStation", "s0", "GAS_PUMP")]
+        if split_base:
+            per_vehicle += [("ChargeBase", "b1", "DCFC"), ("ReserveBase", "b1")]
         if variant == "full":
             per_vehicle += [
                 ("DispatchStation", "s0", "LEVEL_1"),  # plug type not installed
